@@ -2,6 +2,7 @@ package main
 
 import (
 	"fmt"
+	"strings"
 	"go/token"
 	"os"
 	"runtime/debug"
@@ -136,8 +137,12 @@ func (ex *Exec) runPath(spec *HarnessSpec, prefix []Decision) {
 	ex.resetPath(prefix)
 	ex.preemptBound = spec.Preempt
 	ex.noIfConv = spec.Opts["ifconv"] == "off"
-	ex.fpAbstract = spec.Opts["fp"] == "abstract"
+	// fp=abstract over-approximates while exploring; a counterexample is
+	// confirmed by re-execution with every draw pinned, where all floating-point
+	// operands are constants and are computed exactly
+	ex.fpAbstract = spec.Opts["fp"] == "abstract" && ex.replayModel == nil
 	ex.schedAll = spec.Opts["sched"] == "all"
+	ex.noModels = strings.Split(spec.Opts["nomodel"], ",")
 	ex.specMode = false
 	ex.inModel = 0
 	ex.autoTime = true
